@@ -93,15 +93,51 @@ def run(seed, tier, replay=None):
         cases = [([C.unhex(x) for x in v["ys"]], None if v["ws"] is None else [C.unhex(x) for x in v["ws"]],
                   C.unhex(v["a"]), C.unhex(v["b"]))]
 
+    # Axis "the caller's arrays": (i) about half of the distributions are built from float64 ndarrays that the CALLER keeps and
+    # modifies in place afterwards (sort / reverse / refill with the next sample / permute or zero weights, `gen_emp.caller_mutation`):
+    # once straight after construction -- before the first call of any method -- and again before every later call.  The oracle works
+    # on the lists the arrays were made from: every curve must describe the sample given at construction.  (ii) argument arrays are
+    # objects the caller keeps too: one ns object per case goes into several calls (`gen_emp.SharedArg`) and must be bit-identical after
+    # each.  Own generator, so the stream of the cases above does not move.
+    rng_m = C.rng_for("C04/caller-arrays", seed)
+    rv = (replay.get("violation", replay).get("input") or {}) if replay is not None else {}
+    owner = {}      # case index -> dict(ys=ndarray, ws=ndarray|None, done=[statements], todo=[statements of a replay])
+
+    def caller_touches(ci, inp):
+        """the caller modifies its arrays (again); the statement is appended to the replay input of everything judged afterwards"""
+        o = owner.get(ci)
+        if o is None:
+            return
+        if o["todo"]:
+            o["done"].append(G.apply_statement(o["todo"].pop(0), o["ys"], o["ws"]))
+        elif replay is None:
+            o["done"].append(G.caller_mutation(rng_m, o["ys"], o["ws"]))
+        inp["caller_modified_its_arrays_in_place"] = list(o["done"])
+
+    def seq_of(ci, inp, call):
+        if ci not in owner:
+            return f"EmpiricalDistribution.{call}"
+        return ("ys = np.array(ys); ws = None if ws is None else np.array(ws); d = EmpiricalDistribution(ys, ws=ws, a=a, b=b); "
+                + "; ".join(inp.get("caller_modified_its_arrays_in_place", [])) + f"; d.{call}(...)   # other calls in between omitted")
+
     reqs, meta = [], []
     for ci, (ys, ws, a, b) in enumerate(cases):
         N = len(ys)
-        with warnings.catch_warnings():
-            warnings.simplefilter("ignore")
-            d = ED(ys, ws=ws, a=a, b=b)
-        dl = dist_line(ys, ws, a, b)
         inp = dict(ys=[C.fhex(v) for v in ys] if N <= 64 else f"<{N} uniform values, seed-derived>", ws=None if ws is None else [C.fhex(v) for v in ws],
                    a=C.fhex(a), b=C.fhex(b))
+        from_arrays = (rng_m.random() < 0.5) if replay is None else bool(rv.get("caller_modified_its_arrays_in_place"))
+        with warnings.catch_warnings():
+            warnings.simplefilter("ignore")
+            if from_arrays:
+                owner[ci] = dict(ys=np.array(ys, dtype=float), ws=None if ws is None else np.array(ws, dtype=float), done=[],
+                                 todo=list(rv.get("caller_modified_its_arrays_in_place") or []))
+                d = ED(owner[ci]["ys"], ws=owner[ci]["ws"], a=a, b=b)
+                caller_touches(ci, inp)       # before the first call of any method
+                rep.count("caller_arrays:built_from_ndarrays_then_modified_in_place")
+            else:
+                d = ED(ys, ws=ws, a=a, b=b)
+                rep.count("caller_arrays:built_from_lists")
+        dl = dist_line(ys, ws, a, b)
         fin = [abs(v) for v in ys if abs(v) != INF]
         scale = max(fin) if fin else 1.0
         tol = Fr(scale) * Fr(1, 10 ** 9) if scale > 0 else Fr(1, 10 ** 300)
@@ -125,6 +161,14 @@ def run(seed, tier, replay=None):
         rep.count("ns_container=" + dt)
         inp["ns_container"] = dt
         shared = np.array(ns_int, dtype=dt)
+        # argument objects the caller keeps (quantile_tuning_curve and real-n average_tuning_curve): the float64 grid of all n, and the
+        # same numbers in a second container (list / tuple / the integer dtype of this case, integers only)
+        nlist = ns_int[:4] + ns_real[:4]
+        alt = rng_m.choice(["list", "tuple", dt if dt not in ("float32", "float64") else "int64"])
+        alt_idx = list(range(len(nlist))) if alt in ("list", "tuple") else list(range(len(ns_int[:4])))
+        kept = dict(nlist=nlist, qs=qs, grids=[(G.SharedArg(nlist, "float64"), list(range(len(nlist)))),
+                                                 (G.SharedArg([nlist[i] for i in alt_idx], alt), alt_idx)],
+                    real=G.SharedArg(ns_real, "float64"))
         for mn in (False, True):
             if ws is None:
                 reqs.append(("emp.naive", f"{dl} {int(mn)} {C.ilist(ns_int)}")); meta.append((ci, "naive", d, mn, ns_int, inp, tol, shared))
@@ -132,14 +176,14 @@ def run(seed, tier, replay=None):
                 reqs.append(("emp.v", f"{dl} {int(mn)} {C.ilist(ns_int)}")); meta.append((ci, "v", d, mn, ns_int, inp, tol, shared))
             if N <= 64:
                 reqs.append(("emp.avg", f"{dl} {int(mn)} {C.ilist(ns_int)}")); meta.append((ci, "avg", d, mn, ns_int, inp, tol, shared))
-                reqs.append(("emp.levels", dl)); meta.append((ci, "avg_real", d, mn, ns_real, inp, tol, None))
+                reqs.append(("emp.levels", dl)); meta.append((ci, "avg_real", d, mn, ns_real, inp, tol, kept))
                 # quantile curve: levels computed here with the *specified* formula in numpy arithmetic
                 lv = []
                 for n in ns_int[:4] + ns_real[:4]:
                     for q in qs:
                         level = float(1 - (1 - q) ** (1 / n)) if mn else float(q ** (1 / n))
                         lv.append((n, q, min(1.0, max(0.0, level))))
-                reqs.append(("emp.ppf", f"{dl} {C.flist([x[2] for x in lv])}")); meta.append((ci, "qtc", d, mn, lv, inp, tol, None))
+                reqs.append(("emp.ppf", f"{dl} {C.flist([x[2] for x in lv])}")); meta.append((ci, "qtc", d, mn, lv, inp, tol, kept))
     replies = drv.run(reqs)
     # clause "v_tuning_curve(n) equals average_tuning_curve(n)" on the model side: the two exact formulas must agree exactly
     exact = {}
@@ -158,6 +202,8 @@ def run(seed, tier, replay=None):
         if r is None:
             rep.disagree(case=ci, op=kind, note="model rejected a valid input", input=inp)
             continue
+        kept, shared = (shared, None) if isinstance(shared, dict) else (None, shared)
+        caller_touches(ci, inp)       # the caller goes on using its ys / ws arrays between any two calls
         with warnings.catch_warnings():
             warnings.simplefilter("ignore")
             try:
@@ -165,7 +211,12 @@ def run(seed, tier, replay=None):
                     impl = d.average_tuning_curve(shared, minimize=mn)
                     mods = [C.parse_ext(t) for t in r]
                 elif kind == "avg_real":
-                    impl = d.average_tuning_curve(np.array(ns, dtype=float), minimize=mn)
+                    impl = d.average_tuning_curve(kept["real"].obj, minimize=mn)       # one float64 object per case, both directions
+                    dmg = kept["real"].changed_by(f"average_tuning_curve(ns, minimize={mn})")
+                    if dmg:
+                        rep.violate(what="average_tuning_curve modified the caller's ns array in place (later calls on the same array are then wrong)",
+                                    input=dict(inp, ns=[float(x) for x in ns], minimize=mn, ns_container="float64"), expected=[float(x) for x in ns],
+                                    observed=dmg, call=seq_of(ci, inp, "average_tuning_curve"))
                     al = [(C.parse_ext(t.split(":")[0]), C.parse_ext(t.split(":")[1])) for t in r]
                     mods = [avg_spec_real(al, n, mn) for n in ns]
                     tinies = [m[1] for m in mods]
@@ -185,6 +236,50 @@ def run(seed, tier, replay=None):
             continue
         call = dict(avg="average_tuning_curve", avg_real="average_tuning_curve", qtc="quantile_tuning_curve",
                     naive="naive_tuning_curve", v="v_tuning_curve", u="u_tuning_curve")[kind]
+        aliased = (" -- the caller modified the ys / ws arrays it had passed to the constructor in place afterwards; the instance must keep "
+                   "describing the sample it was given") if ci in owner else ""
+        if kind == "qtc":
+            # the same ns OBJECT in every call of this case (all q, both directions), as in `ns = np.linspace(..); hi.quantile_tuning_curve(ns);
+            # pt.quantile_tuning_curve(ns); ...`: each call's values against the exact model at the numbers the caller put into the object
+            nq = len(kept["qs"])
+            for S, idxs in kept["grids"]:
+                rep.count("shared_ns_object:quantile_tuning_curve:" + S.container)
+                for qi, q in enumerate(kept["qs"]):
+                    caller_touches(ci, inp)
+                    vin = dict(inp, ns=[kept["nlist"][k] for k in idxs], ns_container=S.container, q=q, minimize=mn)
+                    try:
+                        with warnings.catch_warnings():
+                            warnings.simplefilter("ignore")
+                            out = d.quantile_tuning_curve(S.obj, q=q, minimize=mn)
+                    except Exception as e:  # noqa: BLE001
+                        S.changed_by(f"quantile_tuning_curve(ns, q={q!r}, minimize={mn}) raised {e!r}")
+                        rep.violate(what="quantile_tuning_curve raised on a valid input (an ns object the caller passes to several calls)" + aliased, error=repr(e),
+                                    input=dict(vin, ns_object_now=S.current(), calls_on_this_object=list(S.calls)), call=seq_of(ci, inp, call))
+                        continue
+                    dmg = S.changed_by(f"quantile_tuning_curve(ns, q={q!r}, minimize={mn})")
+                    if dmg:
+                        rep.violate(what="quantile_tuning_curve modified the caller's ns array in place (the next call with the same array -- another band, "
+                                         "another q, the other direction -- is evaluated on what it left there)",
+                                    input=vin, expected=vin["ns"], observed=dmg, call=seq_of(ci, inp, call))
+                    if np.shape(out) != (len(idxs),):
+                        rep.violate(what="quantile_tuning_curve output shape differs from ns shape", input=vin, observed=list(np.shape(out)))
+                        continue
+                    for k, ni in enumerate(idxs):
+                        i = ni * nq + qi
+                        nn, q_, level = ns[i]
+                        mv, margin = mods[i]
+                        if margin <= TIE and level not in (0.0, 1.0):
+                            rep.skip("qtc_level_within_1e-12_of_a_cdf_level")
+                            continue
+                        if level == 1.0 and margin <= TIE:
+                            rep.skip("qtc_level_1_tie")
+                            continue
+                        rep.case(("qtc-shared", S.container, inp["ys"] if isinstance(inp["ys"], str) else tuple(inp["ys"]), str(inp["ws"]), inp["a"], inp["b"], mn, nn, q))
+                        if not same_value(out[k], mv):
+                            rep.violate(what="quantile_tuning_curve(ns,q)[k] is not ppf of the best-of-n quantile level at the k-th n the caller put into the "
+                                             "array it passes to every call" + aliased,
+                                        input=dict(vin, k=k, n=nn, level=C.fhex(level), calls_on_this_object=list(S.calls), ns_object_now=S.current()),
+                                        expected=str(mv), observed=float(out[k]), call=seq_of(ci, inp, call))
         for i, n in enumerate(ns):
             if kind == "qtc":
                 nn, q, level = n
@@ -198,9 +293,9 @@ def run(seed, tier, replay=None):
                 rep.case((kind, inp["ys"] if isinstance(inp["ys"], str) else tuple(inp["ys"]), str(inp["ws"]), inp["a"], inp["b"], mn, nn, q),
                          sample=dict(op=call, ys=ys if len(ys) <= 12 else len(ys), n=nn, q=q, minimize=mn, model=str(mv), impl=float(impl[i])))
                 if not same_value(impl[i], mv):
-                    rep.violate(what="quantile_tuning_curve(n,q) is not ppf of the best-of-n quantile level",
+                    rep.violate(what="quantile_tuning_curve(n,q) is not ppf of the best-of-n quantile level" + aliased,
                                 input=dict(inp, n=nn, q=q, minimize=mn, level=C.fhex(level)), expected=str(mv), observed=float(impl[i]),
-                                call=f"EmpiricalDistribution.{call}")
+                                call=seq_of(ci, inp, call))
                 continue
             mv = mods[i]
             if kind == "avg_real" and mv is not None and not isinstance(mv, float):
@@ -227,8 +322,8 @@ def run(seed, tier, replay=None):
                     "v": "v_tuning_curve(n) differs from the exact V-statistic (= average_tuning_curve of the unweighted sample)",
                     "u": "u_tuning_curve(n) differs from the mean over all subsets of size min(n,N) of their best element",
                 }[kind]
-                v = dict(what=what + " by more than 1e-9*max|obs|", input=dict(inp, n=n, minimize=mn), expected=str(mvf)[:80],
-                         observed=float(impl[i]) if float(impl[i]) == float(impl[i]) else "nan", call=f"EmpiricalDistribution.{call}")
+                v = dict(what=what + " by more than 1e-9*max|obs|" + aliased, input=dict(inp, n=n, minimize=mn), expected=str(mvf)[:80],
+                         observed=float(impl[i]) if float(impl[i]) == float(impl[i]) else "nan", call=seq_of(ci, inp, call))
                 if fk:
                     v["finding_key"] = fk
                 rep.violate(**v)
@@ -290,7 +385,12 @@ def run(seed, tier, replay=None):
     return rep.result(
         rule="structured samples (sizes 1-40 with ties/infinite values/weights, plus unweighted samples of >1000 points); n: 1,2,3,N-1,N,"
              "N+1,2N+3,64 and random integers (exact rational model), real n in [0.1,1000] (exact levels from the model, 50-digit "
-             "powers); q in {0,1,.5,random,near 0,near 1}; both minimize settings. case = (curve, distribution, n[,q], minimize).",
+             "powers); q in {0,1,.5,random,near 0,near 1}; both minimize settings. case = (curve, distribution, n[,q], minimize). "
+             "The caller's arrays (own generator): about half of the distributions are built from float64 ndarrays that the caller then modifies "
+             "in place (sort/reverse/negate/rescale/refill/overwrite one entry; permute/zero/renormalise weights) straight after construction and "
+             "again before every call -- judged by the exact model of the sample given at construction; quantile_tuning_curve and real-n "
+             "average_tuning_curve also receive ONE ns object per case in every call (float64 ndarray; list / tuple / integer ndarray), which "
+             "must be bit-identical after each call, each call's values judged by the exact model at the caller's numbers.",
         extra=dict(driver_lines=drv.lines))
 
 
